@@ -85,7 +85,7 @@ func TabBounds(p *load.Program) *report.RuleResult {
 		{"isIonYear", "p.year", []string{"1", "10000"}, "Ion years run 0001..9999"},
 		{"reader.IntValue", "Int64Value()", []string{pow31.String(), new(big.Int).Neg(pow31).String()}, "IntValue returns the value exactly when it fits an int32: first rejected values 2^31 and -2^31-1"},
 		{"reader.IntSize", "", []string{pow31.String(), new(big.Int).Neg(pow31).String()}, "Int32 is reported exactly for values that fit an int32"},
-		{"readImport", "phi maxID", []string{"0"}, "a declared max_id of 0 is a valid declaration (reserve no IDs); only a negative or absent one means undeclared"},
+		{"readImport", "maxID", []string{"0"}, "a declared max_id of 0 is a valid declaration (reserve no IDs); only a negative or absent one means undeclared"},
 		{"ParseTimestamp", "phi idx", []string{"21", "29"}, "a time with no fraction ends at index 20; 9 fraction digits (nanoseconds) end at index 28; more are rounded"},
 		{"bitstream.ReadSymbolID", ".len", []string{"9"}, "a symbol ID value is a UInt of at most 8 bytes here"},
 		{"bitstream.ReadTimestamp", "result #0 of bitstream.readVarUintLen", []string{"10001"}, "no calendar field exceeds the UTC year 10000"},
